@@ -38,7 +38,7 @@ def _versions_in_lookup(lookup):
     return sorted(int(v) for v in fam.versions) if fam is not None else []
 
 
-def _child(n, kind, sys_ok, evs):
+def _child(n, kind, sys_ok, evs, gate=None):
     import importlib
     from eups.db import Database
     from eups.Product import Product
@@ -92,11 +92,31 @@ def _child(n, kind, sys_ok, evs):
             if not os.path.exists(os.path.join(dbpath, ProductStack.persistFilename(FLAVOR))):
                 s.save(s.getFlavors() or [FLAVOR])
             tick()
-        insts = [fresh_stack()]
+        nxt = [n]
+        if gate == "rebuild0":
+            # another writer's whole command between instance 0's scan of the database and its save(): fires only when
+            # the constructor rebuilds (it calls save() then)
+            real_save = ProductStack.save
+            fired = []
+
+            def gated_save(self, *a, **kw):
+                if not fired:
+                    fired.append(1)
+                    ProductStack.save = real_save
+                    tick()
+                    write_through(fresh_stack(), nxt[0])
+                    nxt[0] += 1
+                return real_save(self, *a, **kw)
+            ProductStack.save = gated_save
+            try:
+                insts = [fresh_stack()]
+            finally:
+                ProductStack.save = real_save
+        else:
+            insts = [fresh_stack()]
         tick()
         insts.append(fresh_stack())
         tick()
-        nxt = [n]
 
         def observe():
             exists = os.path.exists(userfile)
@@ -143,7 +163,7 @@ def _child(n, kind, sys_ok, evs):
 
 def run_real(case):
     """case = {"n", "fileKind", "sysOk", "evs"} -> list of observed states, or {"error": ...}"""
-    r = common.in_child(_child, case["n"], case["fileKind"], case["sysOk"], case["evs"])
+    r = common.in_child(_child, case["n"], case["fileKind"], case["sysOk"], case["evs"], case.get("gate"))
     if r[0] != "ok":
         return {"error": [str(x)[:400] for x in r[:3]]}
     return r[1]
@@ -151,7 +171,7 @@ def run_real(case):
 
 def model_request(case, fixed=True):
     return {"m": "c07", "op": "sync", "fixed": fixed, "n": case["n"], "fileKind": case["fileKind"], "sysOk": case["sysOk"],
-            "evs": [[e[0], e[1]] if len(e) > 1 else [e[0]] for e in case["evs"]]}
+            "gate": case.get("gate") or "", "evs": [[e[0], e[1]] if len(e) > 1 else [e[0]] for e in case["evs"]]}
 
 
 def canon_model(states):
@@ -186,4 +206,9 @@ def all_cases(maxlen, n=2):
             for k in range(1, maxlen + 1):
                 for evs in itertools.product(ALPHABET, repeat=k):
                     out.append({"n": n, "fileKind": kind, "sysOk": sys_ok, "evs": [list(e) for e in evs]})
+    # another writer inside the constructor of instance 0 when it rebuilds (no usable cache anywhere)
+    for kind in (0, 1):
+        for k in range(0, min(maxlen, 2) + 1):
+            for evs in itertools.product(ALPHABET, repeat=k):
+                out.append({"n": n, "fileKind": kind, "sysOk": False, "gate": "rebuild0", "evs": [list(e) for e in evs]})
     return out
